@@ -322,33 +322,57 @@ func run(c *lib.Ctx) error {
 	}
 	dir := c.SpecDir("ElvCore")
 	c.Set("rule", "G: one case per transition (pre-state, chunk) of the exhaustive model, distinct by (pre-state, rendered chunk); chunks without any output, state change or error are not counted as non-trivial")
-	maxLen, wide := 2, false
-	if c.Thorough() {
-		maxLen, wide = 3, false
+	type conf struct {
+		maxLen int
+		wide   bool
 	}
-	c.Set("bounds", map[string]any{"MaxLen": maxLen, "Wide": wide})
-	r, err := c.TLC("MCStatic", lib.TLCRun{Dir: dir, Module: "MCStatic", Workers: 4, Timeout: 12 * time.Minute, HeapGB: 6,
+	confs := []conf{{2, false}, {1, true}}
+	if c.Thorough() {
+		confs = []conf{{3, false}, {2, true}}
+	}
+	var bounds []any
+	total := 0
+	perClass := map[string]int{}
+	for _, cf := range confs {
+		bounds = append(bounds, map[string]any{"MaxLen": cf.maxLen, "Wide": cf.wide})
+		n, err := runConf(c, dir, cf.maxLen, cf.wide, perClass)
+		if err != nil {
+			return err
+		}
+		total += n
+	}
+	c.Set("bounds", bounds)
+	c.AddTraces(total)
+	c.Set("exhaustive", true)
+	c.Set("cases_per_class", perClass)
+	c.Assume("TLC trusted; the executor's concretisation table (statement -> source text, model state -> setup script) and the observer (Evaler.Global() names, `put $x`, calling the function)")
+	return nil
+}
+
+// runConf: M + G for one vocabulary / chunk length.
+func runConf(c *lib.Ctx, dir string, maxLen int, wide bool, perClass map[string]int) (int, error) {
+	name := fmt.Sprintf("MCStatic(MaxLen=%d,Wide=%v)", maxLen, wide)
+	r, err := c.TLC(name, lib.TLCRun{Dir: dir, Module: "MCStatic", Workers: 4, Timeout: 12 * time.Minute, HeapGB: 6,
 		Files: map[string][]byte{"MCStatic.cfg": cfgText(maxLen, wide)}})
 	if err != nil {
-		return err
+		return 0, err
 	}
 	if r.ErrKind != "" {
-		return lib.Infra("the Static model violates its own property %s %s:\n%s", r.ErrKind, r.ErrName, r.ErrTrace)
+		return 0, lib.Infra("the Static model violates its own property %s %s:\n%s", r.ErrKind, r.ErrName, r.ErrTrace)
 	}
 	lines := r.PrintedStrings()
-	c.Logf("model: %d distinct states, %d transitions, %d cases emitted", r.Distinct, r.Generated, len(lines))
+	c.Logf("%s: %d distinct states, %d transitions, %d cases emitted", name, r.Distinct, r.Generated, len(lines))
 	if int64(len(lines)) < r.Generated-1 {
-		return lib.Infra("TLC generated %d transitions but emitted %d cases", r.Generated, len(lines))
+		return 0, lib.Infra("TLC generated %d transitions but emitted %d cases", r.Generated, len(lines))
 	}
 	cases := make([]kase, len(lines))
 	for i, l := range lines {
 		if err := json.Unmarshal([]byte(l), &cases[i]); err != nil {
-			return lib.Infra("bad case from TLC: %v: %s", err, l)
+			return 0, lib.Infra("bad case from TLC: %v: %s", err, l)
 		}
 	}
 	var mu sync.Mutex
 	var firstErr error
-	perClass := map[string]int{}
 	lib.Parallel(len(cases), 8, func(i int) {
 		k := cases[i]
 		ob, src, err := replayCase(k)
@@ -374,13 +398,9 @@ func run(c *lib.Ctx) error {
 		}
 	})
 	if firstErr != nil {
-		return firstErr
+		return 0, firstErr
 	}
-	c.AddTraces(len(cases))
-	c.Set("exhaustive", true)
-	c.Set("cases_per_class", perClass)
-	c.Assume("TLC trusted; the executor's concretisation table (statement -> source text, model state -> setup script) and the observer (Evaler.Global() names, `put $x`, calling the function)")
-	return nil
+	return len(cases), nil
 }
 
 func replay(c *lib.Ctx) error {
